@@ -169,6 +169,7 @@ const (
 	SiteExit     = 0xFFFFFFF4
 	SiteStart    = 0xFFFFFFF5
 	SiteSync     = 0xFFFFFFF6
+	SiteAtomic   = 0xFFFFFFF7 // a sync/atomic operation (through the zatomic shim)
 )
 
 // Active reports whether a simulated run is in progress.
@@ -284,7 +285,7 @@ func Y(site uint32) {
 		// park the task right where it touches process-wide state (a package-level
 		// variable) or has just run its deferred calls, and let the others complete
 		// whole operations meanwhile: first-use initialisation, counters, try-locks
-		if inOp[me] && site < uint32(len(Sites)) && Sites[site].Flags&(FlagGlobal|FlagExit) != 0 {
+		if inOp[me] && (site == SiteAtomic || site < uint32(len(Sites)) && Sites[site].Flags&(FlagGlobal|FlagExit) != 0) {
 			q := cfg.SyncQ
 			if q < 1 {
 				q = 1
